@@ -62,6 +62,21 @@ def components():
         return F()
     out["inverse_encode Hamming(7,4)"] = dict(make=hinv, n=lambda f: 7, kind="bits", oned=True, blocks=True, state=False)
 
+    def bp_soft():
+        # sum-product BP with soft output on the 3x6 LDPC matrix; members are sign patterns turned into LLRs of magnitude 0.8,
+        # the observed output is the soft LLR rounded to 1e-3 (so that equality is meaningful on float32 leaves)
+        from kaira.models.fec.encoders import LDPCCodeEncoder
+        e = quiet(LDPCCodeEncoder, check_matrix=torch.tensor([[1., 0, 1, 1, 0, 0], [0, 1, 1, 0, 1, 0], [0, 0, 0, 1, 1, 1]]))
+        d = quiet(D.BeliefPropagationDecoder, e, bp_iters=3, arctanh=True)
+
+        class F(torch.nn.Module):
+            def forward(self, bits):
+                llr = (1 - 2 * bits) * 0.8
+                _, soft = d(llr, return_soft=True)
+                return torch.round(soft * 1000)
+        return F()
+    out["decoder BP(return_soft)@LDPC(6,3)"] = dict(make=bp_soft, n=lambda f: 6, kind="bits", oned=False, blocks=False, state=True, table=True, nested=False)
+
     def wag():
         from kaira.models.fec.encoders import SingleParityCheckCodeEncoder
         d = D.WagnerSoftDecisionDecoder(SingleParityCheckCodeEncoder(2))
@@ -341,7 +356,7 @@ def main():
     ck.encoded(U.apply_blockwise, syndrome_lookup.SyndromeLookupDecoder.forward, berlekamp_massey.BerlekampMasseyDecoder.forward, brute_force_ml.BruteForceMLDecoder.forward,
                reed_muller_decoder.ReedMullerDecoder.forward, wagner_soft_decision_decoder.WagnerSoftDecisionDecoder.forward, CP.TotalPowerConstraint.forward, CP.AveragePowerConstraint.forward)
     ck.bound("members", "batches of two symbolic members (all values of both at once), each member also alone as a batch of one and as a 1-D tensor, swapped order, (1,2,n) layout and two blocks in one row; Berlekamp-Massey: second member fixed (its front end concretises every bit)")
-    ck.bound("components", f"{len(items) - 1} components: 7 encoders, 5 hard decoders/inverses, Wagner, 5 modulators + hard demodulators (continuous received points), total/average power constraints")
+    ck.bound("components", f"{len(items) - 1} components: 7 encoders, 5 hard decoders/inverses, Wagner, sum-product BP soft output (rounded to 1e-3), 5 modulators + hard demodulators (continuous received points), total/average power constraints")
     ck.assume("an unsupported layout may be rejected with an exception (never answered with different values); PAPR and per-antenna constraints and iterative soft decoders are outside this check's catalogue (their per-item clauses are in C08 / C10)")
     ck.run_items(__name__, "work", items)
     ck.finish(min_obligations=40)
